@@ -669,7 +669,7 @@ def run_arrays(check, pool, Task, pid, quantities, kinds=None, derivs=None, dtyp
             for f in fnd:
                 try:
                     bad, wit = replay_finding(m['kind'], r.get('specs') or BASE[m['kind']], m['deriv'], m['dtype'], f)
-                except OverflowError:
+                except (OverflowError, ValueError):      # counterexample not representable in the coordinate subtype
                     outcome.append('spurious')
                     continue
                 except Exception as e:  # noqa: BLE001
